@@ -62,6 +62,28 @@ def generate(rng, index, tier):
     scn['counts'] = [0, 1, rng.randint(0, max(1, nrec)), nrec + 5]
     scn['color'] = rng.chance(0.15)
     scn['filter_tid'] = threads[0]['tid'] if threads and rng.chance(0.2) else None
+    names_ = [t[2] for t in scn['writer'].get('tmap', []) if t[2]]
+    if names_ and rng.chance(0.25):
+        scn['filter_process'] = rng.pick(names_)        # listings restricted to one process (by the name the thread map gives it)
+    if threads and rng.chance(0.2):
+        # a call that returns while its own path lookup is still being logged: START, first lookup chunk, END, the other chunks
+        th = rng.pick(threads)
+        nm = rng.pick(['BSC_open', 'BSC_stat64', 'BSC_access', 'BSC_chdir', 'BSC_unlink'])
+        ids_ = worlds.catalog()['ids']
+        if nm in ids_:
+            s_, e_ = worlds.domains.draw(rng, nm)
+            lk = worlds.op_lookup(rng, rng.pick([30, 60, 100]))
+            lk['between'] = {'0': [{'k': 'raw', 'id': ids_[nm], 'q': 2, 'a': list(e_)}]}
+            th['ops'].insert(rng.randrange(len(th['ops']) + 1), {'k': 'sys', 'name': nm, 's': s_, 'e': e_, 'in': [lk], 'noend': True})
+    if threads and rng.chance(0.2):
+        # a sample whose frames lie below every image known so far, then the same thread announces an image below them; and an
+        # exec announcement (data record, then the new name) by a thread of a mapped process
+        th = rng.pick(threads)
+        base = rng.randrange(1, 1 << 30) << 12
+        th['ops'].append(worlds.op_sample(rng, flags=8, thd=None, uhdr=(1, 3), udata=[[base + 0x10, base + 0x2000, base + 5, 0]]))
+        th['ops'].append(worlds.op_imap(rng, worlds.draw_uuid(rng), base))
+        mapped = [t[1] for t in scn['writer'].get('tmap', []) if t[0] == th['tid']]
+        th['ops'].insert(rng.randrange(len(th['ops']) + 1), worlds.op_exec(rng, mapped[0] if mapped else rng.randrange(1, 5000), rng.ident()))
     scn['cli'] = index % 12 == 0
     scn['reader'] = 'raw' if index % 5 == 2 else 'bytesio'
     if index % 157 == 3:
@@ -108,7 +130,7 @@ def _views(data, table, scn, budget=True, eio=None, deep=True):
     out['raw_events'] = ([common.ev_tuple(e) for e in items if not common.is_log(e)], type(exc).__name__ if exc else None)
     out['_reads'] = (rd.calls, rd.bytes_read, rd.eio_fired)
     if deep:
-        p = common.new_parser(filter_tid=scn.get('filter_tid'))
+        p = common.new_parser(filter_tid=scn.get('filter_tid'), filter_process=scn.get('filter_process'))
         snaps = []
 
         def pull():
@@ -124,7 +146,21 @@ def _views(data, table, scn, budget=True, eio=None, deep=True):
             except Exception as e:
                 texts.append([type(t).__name__, 'str-raised:' + type(e).__name__])
         out['traces'] = (texts, type(exc).__name__ if exc else None)
-        p = common.new_parser(color=bool(scn.get('color')), show_tid=True, filter_tid=scn.get('filter_tid'))
+        # callstack objects: what was handed out stays what it was
+        p = common.new_parser(filter_tid=scn.get('filter_tid'))
+        cs_snaps = []
+
+        def cs_repr(c):
+            return (c.timestamp, c.tid, [(fr.address, str(fr.uuid), fr.offset) for fr in c.frames])
+
+        def pull_cs():
+            for c in p.callstacks(reader(), table):
+                cs_snaps.append((c, cs_repr(c)))
+                yield c
+        citems, cexc = common.drain(pull_cs)
+        out['callstacks'] = ([list(map(list, [r0[2]])) + [r0[0], r0[1]] for _c, r0 in cs_snaps], type(cexc).__name__ if cexc else None)
+        out['_changed_later'] += [('callstack', i, 0) for i, (c, r0) in enumerate(cs_snaps) if cs_repr(c) != r0]
+        p = common.new_parser(color=bool(scn.get('color')), show_tid=True, filter_tid=scn.get('filter_tid'), filter_process=scn.get('filter_process'))
         items, exc = common.drain(lambda: p.formatted_traces(reader(), table))
         out['formatted_traces'] = (items, type(exc).__name__ if exc else None)
         p = common.new_parser(show_tid=True, filter_tid=scn.get('filter_tid'))
